@@ -44,8 +44,9 @@ LEVEL_TEXT = ("Coq theorems over the reals about the executable Gallina model of
               "differences (Proofs/KnotRemMore.v). Removal after a GENERAL refinement (Proofs/KnotRemMoreRefine/Order.v): A5.4 with any admissible "
               "X equals the chain of single insertions in any order, and removing the refined knots in ANY order and grouping never raises, "
               "restores control points and knot vector exactly and leaves the curve unchanged after every step; removing some of them gives the "
-              "refinement by the rest (curves; also at knot_refinement / refine_knotvector level). Tied by correspondence/oracle only: "
-              "refine-then-remove on surfaces and volumes, the object wrappers.")
+              "refinement by the rest (curves; also at knot_refinement / refine_knotvector level), and the same for SURFACES and VOLUMES with the "
+              "removal calls of all directions interleaved in any order (Proofs/KnotRemRefineLift.v: stage algebra of three commuting "
+              "directions + fibre-wise insertion chains). Tied by correspondence/oracle only: the object wrappers.")
 LEVEL_NOTE = ("The model describes helpers.knot_removal after fixes/C06-knot-removal.diff (alignment with Algorithm A5.8). It is tied to /repo by the "
               "sampled correspondence check (tolerance 1e-9). Shape preservation in the theorems is stated on control nets (insertion of the "
               "removed knot gives back the net); its equivalence with equality of evaluated points is C04's insertion theorem.")
